@@ -65,7 +65,23 @@ class _CircuitAttacher(object):
         # joy oh joy, ipaddress wants unicode, Twisted gives us bytes...
         real_host = maybe_ip_addr(str(real_addr.host))
         real_port = real_addr.port
+        if d.called:
+            return  # the connection already failed; nothing to wait for
         self._circuit_targets[(real_host, real_port)] = (circuit, d)
+
+    def remove_endpoint(self, d):
+        """
+        The connection behind `d` (as returned by add_endpoint) failed
+        before Tor announced its stream: forget its source address so
+        that a later, unrelated stream from the same local port isn't
+        taken for it.
+        """
+        for k, (circuit, target_d) in list(self._circuit_targets.items()):
+            if target_d is d:
+                del self._circuit_targets[k]
+        if not d.called:
+            d.addErrback(lambda _: None)
+            d.cancel()
 
     def attach_stream_failure(self, stream, fail):
         """
@@ -148,7 +164,11 @@ class TorCircuitEndpoint(object):
         yield self._circuit.when_built()
         connect_d = self._target_endpoint.connect(protocol_factory)
         attached_d = attacher.add_endpoint(self._target_endpoint, self._circuit)
-        proto = yield connect_d
+        try:
+            proto = yield connect_d
+        except Exception:
+            attacher.remove_endpoint(attached_d)
+            raise
         yield attached_d
         return proto
 
